@@ -1,3 +1,5 @@
+import TxdbusModel.Gen.Dispatch
+import TxdbusModel.Gen.C08Client
 /-
 C11 - message-level model of the composition "proxy call -> bus -> exported method -> bus -> result".
 
@@ -37,6 +39,18 @@ What is NOT re-modelled here (owned by other properties, entering as explicit pa
     to indices); name ownership is C13, match rules are C12/C14.  Calls with `expectReply=False`, timeouts
     and lost connections are outside C11 (C08, C09, C10).
 
+Constants that are tables in the source (the three built-in (interface, member) pairs, reply signatures,
+error names and texts, the exception-name prefix, the invalid-name notice, the `dbus_` attribute prefix, the
+NUL escape of `send_error`, the `'('` of `_cbCvtReply`) come from the generated modules `Gen/Dispatch.lean`
+(C10's translator) and `Gen/C08Client.lean` (C08's): editing them in /repo re-checks this model.
+
+A well-known bus name is identified with the connection that owns it for the whole run (the harness maps
+names to indices; requesting/releasing names is C13): `Bus.sendMessage`'s `busNames` arm is exercised by the
+streams, not distinguished in the model.  `World.exports` is static during a run (no export/unexport between
+calls).  A method that issues a call *during* its invocation and returns synchronously is expressible only up
+to the order of its two messages in `up` (the model appends the reply at `toClient`, the call at the
+following `call` step); a method that returns a Deferred (the relay pattern) is exact.
+
 Core Lean only.
 -/
 namespace Txdbus.Net
@@ -63,11 +77,84 @@ structure Iface where
 def Iface.method? (i : Iface) (name : String) : Option MethodDecl :=
   i.methods.find? (fun m => m.name == name)
 
+/-- A function found in a class `__dict__`: `id` identifies the user function (what an invocation records);
+`deco` is `(_dbusInterface, _dbusMethod)` when it carries `@dbusMethod`. -/
+structure Func where
+  id : Nat
+  deco : Option (String × String)
+  deriving DecidableEq, Repr
+
+/-- One class of `type(obj).__mro__` (without `object`): `ifaces = some l` iff `'dbusInterfaces' in
+cls.__dict__`; `attrs` = the functions of `cls.__dict__` under their attribute names, in definition order. -/
+structure Class where
+  ifaces : Option (List Iface)
+  attrs : List (String × Func)
+  deriving DecidableEq, Repr
+
+/-- An exported object: its path and its class chain in `__mro__` order. -/
 structure ExpObj where
   path : String
-  /-- `o.getInterfaces()` in order -/
-  ifaces : List Iface
-  deriving Repr
+  classes : List Class
+  deriving DecidableEq, Repr
+
+/-- `o.getInterfaces()`: `dbusInterfaces` of every class that defines it, in `__mro__` order. -/
+def ExpObj.ifaces (o : ExpObj) : List Iface := o.classes.flatMap (fun c => c.ifaces.getD [])
+
+/-! ### `DBusObject.executeMethod`: which function serves (interface, member)
+
+The twin, over `String`, of `Obj/Dispatch.lean`'s `resolveImpl` (C10's model, which is over `List Char`). -/
+
+def assocGet {α : Type} (d : List (String × α)) (k : String) : Option α :=
+  match d with
+  | [] => none
+  | (k', v) :: t => if k' = k then some v else assocGet t k
+
+/-- `d[k] = v` on a dict kept in insertion order -/
+def assocSet {α : Type} (d : List (String × α)) (k : String) (v : α) : List (String × α) :=
+  match d with
+  | [] => [(k, v)]
+  | (k', v') :: t => if k' = k then (k, v) :: t else (k', v') :: assocSet t k v
+
+def firstSome {α β : Type} (f : α → Option β) : List α → Option β
+  | [] => none
+  | a :: t => match f a with
+    | some b => some b
+    | none => firstSome f t
+
+/-- `getattr(self, name, None)` restricted to functions defined in the classes -/
+def ExpObj.getattr (o : ExpObj) (name : String) : Option Func :=
+  firstSome (fun c => assocGet c.attrs name) o.classes
+
+/-- the per-class `_dbusIfaceCache`, methods only: interface -> member -> attribute name -/
+def classCache (c : Class) : List (String × List (String × String)) :=
+  c.attrs.foldl (fun cache a =>
+    match a.2.deco with
+    | some (i, m) =>
+      (match assocGet cache i with
+       | some ms => assocSet cache i (assocSet ms m a.1)
+       | none => assocSet cache i [(m, a.1)])
+    | none => cache) []
+
+/-- `_getDecoratedMethod(iname, member)`: `_searchCache` along the MRO, then `getattr(self, f.__name__)` -/
+def ExpObj.decorated (o : ExpObj) (iname member : String) : Option Func :=
+  let attr := firstSome (fun c =>
+    let cache := classCache c
+    if iname ≠ "" then (assocGet cache iname).bind (fun ms => assocGet ms member)
+    else firstSome (fun ic => assocGet ic.2 member) cache) o.classes
+  attr.bind o.getattr
+
+/-- The function `executeMethod` ends up calling (`none` = `raise NotImplementedError`): `dbus_<member>`
+first, for ANY interface unless it is decorated for a different one; else the decorated method. -/
+def ExpObj.resolveImpl (o : ExpObj) (iname member : String) : Option Func :=
+  let m1 := match o.getattr (Gen.Dispatch.attrPrefix ++ member) with
+    | some f => some f
+    | none => o.decorated iname member
+  match m1 with
+  | none => none
+  | some f =>
+    match f.deco with
+    | some (i, _) => if i ≠ iname then o.decorated iname member else some f
+    | none => some f
 
 /-! ## What user methods do -/
 
@@ -131,8 +218,8 @@ structure World (V : Type) where
   exports : Nat → List ExpObj
   /-- `generateIntrospectionXML(path, exports)` of client `j` (None: nothing exported at or below the path) -/
   introspect : Nat → String → Option V
-  /-- `getManagedObjects(path)` of client `j` -/
-  managed : Nat → String → V
+  /-- building the GetManagedObjects reply of client `j` for a path: the value, or the exception (C16; C10-02) -/
+  managed : Nat → String → Except Exc V
   /-- `marshal.marshal(sig, body)` raising: the exception (None: the body encodes) -/
   encErr : String → List V → Option Exc
   /-- `marshal.validateErrorName` accepts -/
@@ -163,7 +250,7 @@ def cvtReply {V : Type} (retSig : Option String) (sig : String) (body : List V) 
   if bad then .sigMismatch
   else match body with
     | [] => .none
-    | [v] => if sig.toList.head? = some '(' then .many [v] else .single v
+    | [v] => if sig.toList.head? = some Gen.C08Client.structOpen then .many [v] else .single v
     | vs => .many vs
 
 /-- What completes the caller's Deferred when a reply with this content is matched. -/
@@ -214,15 +301,18 @@ inductive IssueResult where
   | noSuchClient
   deriving DecidableEq, Repr
 
+/-- `if interface and not interface == i.name: continue` -/
+def proxySkip (kw : Option String) (i : Iface) : Bool :=
+  match kw with
+  | none => false
+  | some k => k ≠ "" && k ≠ i.name
+
 /-- The loop of `RemoteDBusObject.callRemote`: the first interface (among those named by a truthy
 `interface=` keyword) that has the method. -/
 def proxyLookup (kw : Option String) (member : String) : List Iface → Option (Iface × MethodDecl)
   | [] => none
   | i :: rest =>
-    let skip : Bool := match kw with
-      | none => false
-      | some k => k ≠ "" && k ≠ i.name
-    if skip then proxyLookup kw member rest
+    if proxySkip kw i then proxyLookup kw member rest
     else match i.method? member with
       | some m => some (i, m)
       | none => proxyLookup kw member rest
@@ -272,6 +362,8 @@ structure Invocation (V : Type) where
   iface : String
   member : String
   args : List V
+  /-- `Func.id` of the Python function that ran -/
+  impl : Nat
   deriving DecidableEq, Repr
 
 /-- Why a reply was sent: the verdict of `handleMethodCallMessage` for one call. -/
@@ -287,7 +379,7 @@ inductive Answer (V : Type) where
 inductive Check (V : Type) where
   | builtin (sig : String) (body : List V)
   | refused (name : String) (text : String)
-  | run (i : Iface) (m : MethodDecl)
+  | run (i : Iface) (m : MethodDecl) (f : Func)
   deriving Repr
 
 /-- `str or ''` / truthiness of an optional string -/
@@ -309,40 +401,72 @@ def lookupObj (path : String) : List ExpObj → Option ExpObj
   | [] => none
   | o :: rest => if o.path = path then some o else lookupObj path rest
 
-/-- `handleMethodCallMessage` up to the point where the exported method would be run. -/
-def check {V : Type} (w : World V) (j : Nat) (path : String) (iface : Option String) (member : String)
-    (sig : String) : Check V :=
-  if iface = some "org.freedesktop.DBus.Peer" ∧ member = "Ping" then .builtin "" []
-  else
-    let intro : Option V :=
-      if iface = some "org.freedesktop.DBus.Introspectable" ∧ member = "Introspect" then w.introspect j path
-      else none
-    match intro with
-    | some xml => .builtin "s" [xml]
-    | none =>
-      match lookupObj path (w.exports j) with
-      | none => .refused "org.freedesktop.DBus.Error.UnknownObject"
-                  (path ++ " is not an object provided by this process.")
-      | some o =>
-        if iface = some "org.freedesktop.DBus.ObjectManager" ∧ member = "GetManagedObjects" then
-          .builtin "a{oa{sa{sv}}}" [w.managed j o.path]
-        else
-          match (findIface iface member o.ifaces).bind (fun i => (i.method? member).map (fun m => (i, m))) with
-          | none => .refused "org.freedesktop.DBus.Error.UnknownMethod"
-                      ("Method \"" ++ member ++ "\" with signature \"" ++ sig ++ "\" on interface \""
-                        ++ strOr iface "(null)" ++ "\" doesn't exist")
-          | some (i, m) =>
-            if m.sigIn ≠ sig then .refused "org.freedesktop.DBus.Error.InvalidArgs"
-                      ("Call to " ++ member ++ " has wrong args (" ++ sig ++ ", expected " ++ m.sigIn ++ ")")
-            else .run i m
+/-- The text of a `_send_err` call: literal pieces and slots (Gen/Dispatch.lean). -/
+def renderPieces (path member sig : String) (iface : Option String) (sigIn excText : String) :
+    List Gen.Dispatch.Piece → String
+  | [] => ""
+  | .lit s :: t => s ++ renderPieces path member sig iface sigIn excText t
+  | .path :: t => path ++ renderPieces path member sig iface sigIn excText t
+  | .member :: t => member ++ renderPieces path member sig iface sigIn excText t
+  | .sigOr d :: t => (if sig = "" then d else sig) ++ renderPieces path member sig iface sigIn excText t
+  | .ifaceOr d :: t => strOr iface d ++ renderPieces path member sig iface sigIn excText t
+  | .sigInOr d :: t => (if sigIn = "" then d else sigIn) ++ renderPieces path member sig iface sigIn excText t
+  | .excText :: t => excText ++ renderPieces path member sig iface sigIn excText t
+
+/-- `errMsg.replace('\\0', '\\\\x00').encode('utf-8', 'backslashreplace').decode('utf-8')` (repair C10-01; the
+second half is the identity on strings of Unicode scalar values, the only ones a Lean `String` holds). -/
+def escapeText (t : String) : String :=
+  match Gen.Dispatch.textEscape with
+  | some (c, r) => t.replace (String.singleton (Char.ofNat c)) r
+  | none => t
 
 /-- `send_error(err)`: the error reply for an exception. -/
 def errorReply {V : Type} (w : World V) (e : Exc) : Reply V :=
   let name := match e.dbusName with
     | some n => n
-    | none => "org.txdbus.PythonException." ++ e.cls
-  if w.validErrorName name then .err name e.text
-  else .err "org.txdbus.InvalidErrorName" ("!!(Invalid error name \"" ++ name ++ "\")!! " ++ e.text)
+    | none => Gen.Dispatch.pyExceptionPrefix ++ e.cls
+  if w.validErrorName name then .err name (escapeText e.text)
+  else .err Gen.Dispatch.invalidErrorName
+        (escapeText (Gen.Dispatch.invalidNameNotice.replace "%s" name ++ e.text))
+
+/-- `raise NotImplementedError` in `executeMethod` -/
+def notImplemented : Exc := { dbusName := none, cls := Gen.Dispatch.unboundException, text := "" }
+
+/-- `handleMethodCallMessage` up to the point where the user function would be called (`executeMethod`'s
+resolution included: nothing bound -> `NotImplementedError` -> `send_error`). -/
+def check {V : Type} (w : World V) (j : Nat) (path : String) (iface : Option String) (member : String)
+    (sig : String) : Check V :=
+  if iface = some Gen.Dispatch.peerPair.1 ∧ member = Gen.Dispatch.peerPair.2 then .builtin "" []
+  else
+    let intro : Option V :=
+      if iface = some Gen.Dispatch.introspectPair.1 ∧ member = Gen.Dispatch.introspectPair.2 then w.introspect j path
+      else none
+    match intro with
+    | some xml => .builtin Gen.Dispatch.introspectSig [xml]
+    | none =>
+      match lookupObj path (w.exports j) with
+      | none => .refused Gen.Dispatch.unknownObject.1
+                  (renderPieces path member sig iface "" "" Gen.Dispatch.unknownObject.2)
+      | some o =>
+        if iface = some Gen.Dispatch.managedPair.1 ∧ member = Gen.Dispatch.managedPair.2 then
+          match w.managed j o.path with
+          | .ok v => .builtin Gen.Dispatch.managedSig [v]
+          | .error e => .refused Gen.Dispatch.managedFailed.1
+                          (renderPieces path member sig iface "" e.text Gen.Dispatch.managedFailed.2)
+        else
+          match (findIface iface member o.ifaces).bind (fun i => (i.method? member).map (fun m => (i, m))) with
+          | none => .refused Gen.Dispatch.unknownMethod.1
+                      (renderPieces path member sig iface "" "" Gen.Dispatch.unknownMethod.2)
+          | some (i, m) =>
+            if m.sigIn ≠ sig then .refused Gen.Dispatch.invalidArgs.1
+                      (renderPieces path member sig iface m.sigIn "" Gen.Dispatch.invalidArgs.2)
+            else
+              match o.resolveImpl i.name member with
+              | none =>
+                (match errorReply w notImplemented with
+                 | .err n t => .refused n t
+                 | .ret _ _ => .refused "" "")
+              | some f => .run i m f
 
 /-- The body `send_reply` hands to MethodReturnMessage. -/
 def replyBody {V : Type} (nret : Nat) : PyRet V → List V
@@ -442,9 +566,10 @@ def dispatch {V : Type} (w : World V) (j : Nat) (cl : Client V) (serial : Nat) (
   match check w j path iface member sig with
   | .builtin s b => sendAnswer w cl sender serial (.builtin s b)
   | .refused n t => sendAnswer w cl sender serial (.refused n t)
-  | .run i m =>
+  | .run i m f =>
     let cl1 := { cl with invocations := cl.invocations ++
-                  [{ sender := sender, serial := serial, path := path, iface := i.name, member := member, args := args }] }
+                  [{ sender := sender, serial := serial, path := path, iface := i.name, member := member, args := args,
+                     impl := f.id }] }
     match beh with
     | .now res => sendAnswer w cl1 sender serial (.result m.sigOut m.nret res)
     | .deferred =>
